@@ -298,6 +298,12 @@ def check(ix, rep):
     nfun = astpure.check_modules(ix, rep, ('rtamt/semantics/', 'rtamt/spec/', 'rtamt/explanation/'), 'spec-read-only')
     rep.floor('functions checked for stores through parameters', nfun, 780)
 
+    # ---- (f) the per-update memo of the update visitor is no state: it is renewed before each traversal (a memo emptied *after* the pass
+    # survives an update that raised, and reset() does not touch it)
+    from sa.rules import step as _step10
+    for m_ in M.standard_monitors(ix):
+        if m_.mode == 'online':
+            _step10.check_step(ix, rep, m_)
     explanation = (
         'Typestate/effect analysis of the reset path. For every concrete online interpreter class the executed reset chain '
         '(resolved reset, super() targets, self-calls) is collected; every self attribute it reads must be constructor-defined or '
